@@ -171,7 +171,7 @@ def validation_rows(tier, seed):
         return c
     prices_on = [1.01, 1.5, 2.0, 2.02, 3.05, 4.1, 6.2, 10.5, 21.0, 32.0, 55.0, 110.0, 1000.0]
     prices_off = [1.0, 1.005, 2.01, 3.01, 4.05, 6.1, 10.2, 20.5, 31.0, 51.0, 105.0, 1001.0, 0.0]
-    finest_on, finest_off = [2.01, 3.33, 999.99], [2.005, 1000.01]
+    finest_on, finest_off = [1.01, 1.02, 2.01, 3.33, 999.99, 1000.0], [1.0, 1.005, 2.005, 1000.01]
     sizes = [0.0, -1.0, 0.001, 0.005, 0.01, 0.5, 0.99, 0.999, 1.0, 1.001, 1.01, 2.0, 2.5, 5.0, 10.0, 9.99, 19.99, 20.0, 150.0, 4000.0, 2.345]
     curs = ["GBP", "EUR", "USD", "HKD", "AUD", "DKK", "HUF"] if tier == "thorough" else ["GBP", "EUR", "HKD"]
     for cur, live in [(c, l) for c in curs for l in (False, True, "fault_first")]:
